@@ -247,7 +247,10 @@ CLAIMED = {
              "full or partial turn, caps contribute nothing) the tessellated volume is (sum of sin of the "
              "slice angles) x profile sum; rotation about the axis leaves it unchanged; the profile sums of "
              "cylinder / cone / annulus give V = (n sin(2 pi / n) / 2) R^2 h etc.; every index the face "
-             "arithmetic produces is a valid vertex and each slice has the same number of faces; the box "
+             "arithmetic produces is a valid vertex and each slice has the same number of faces; a full-turn "
+             "revolve of an axis-to-axis profile is closed and consistently wound for EVERY number of profile "
+             "points >= 3 and EVERY number of slices (edge multiset invariant under reversal after the two axis "
+             "points are merged), and those faces are exactly what the code's index arithmetic keeps; the box "
              "table (regenerated from creation.json each run) is closed and consistently wound, its volume is "
              "the product of the extents for every extents and its bounds are +-extents/2; the icosahedron "
              "table is closed and stays closed under every number of subdivisions (icosphere). Tied to the "
@@ -257,8 +260,9 @@ CLAIMED = {
              "with caps, polygons with holes and every engine, rigid and mirrored placements, sequences of "
              "primitive parameter edits against a freshly built primitive.",
         note="Trusted: Lean kernel (+propext/Classical.choice/Quot.sound); polygon triangulation engines judged by "
-             "output. Partial: closedness of revolve / extrusions for all counts is certified per explored "
-             "parameter set (edge pairing computed on the real faces), not proved for all counts; area of "
+             "output. Partial: closedness of partial revolves with caps, closed-profile revolves (annulus, torus) "
+             "and extrusions is certified per explored parameter set (edge pairing computed on the real "
+             "faces), not proved for all counts; area of "
              "curved shapes and inertia are compared numerically only. Two defects repaired (sections=1 "
              "IndexError, mirrored placement inverted).",
         technique="Lean 4 proof (polynomial volume identities, generated tables decided by the kernel) + differential correspondence"),
